@@ -65,3 +65,40 @@ Theorem C04_checked_depth_one_complete : forall s nd vs, complete_okb s nd vs = 
   complete_for s (d1_pat nd vs) theta (List.combine vs (app_occ n)).
 Proof. exact complete_okb_sound. Qed.
 Print Assumptions C04_checked_depth_one_complete.
+
+(* third session (EGraph/MatchReprFacts.v, MatchReprFix.v, MatchReprAlg.v, StoredLive.v): the hypothesis `repr_hyp` is
+   DISCHARGED from state invariants that are proved for every state of a run (`match_inv`, which includes the new invariant
+   `stored_live`: dead classes store no e-nodes).  The remaining premises are about the INSTANCE: its children cover
+   their classes (what the matcher's own substitutions satisfy) and `cleanp` (its bound names are pairwise distinct and
+   not used free) - exactly the property's stated scope; `repr_needs_clean` is a vm_compute witness that it cannot be
+   dropped.  Beyond depth one: evaluation and counterexamples only (EGraph/MatchReprDeep.v) - nested patterns are complete
+   on all 268 tested states without a redundant slot, and INCOMPLETE in the presence of a redundant slot (CE1..CE4), the
+   limitation the repository documents with its redundancy_matching_bug tests and the property excludes. *)
+From SE Require Import EGraph.ModelMachine EGraph.HashconsFacts EGraph.SoundAddExpr EGraph.KidsFacts EGraph.MatchReprAlg EGraph.MatchMachine EGraph.MatchLookup EGraph.MatchReprFacts.
+
+Theorem C04_matcher_invariant_reachable : forall terms ops hs s,
+  ops_pre terms ops [] empty_egraph -> List.Forall (fun t => rt_wf t /\ rt_pre 1 t) terms ->
+  run_ops terms ops [] empty_egraph = Ok (hs, s) -> match_inv s.
+Proof. exact match_inv_reachable. Qed.
+Print Assumptions C04_matcher_invariant_reachable.
+
+Theorem C04_depth_one_complete_reachable : forall s nd vs n theta, match_inv s ->
+  List.NoDup vs -> List.length vs = List.length (app_occ nd) -> pat_below (Model.ctr s) (d1_pat nd vs) ->
+  instance_of nd n = Some theta -> List.Forall (covers s) (app_occ n) -> cleanp n ->
+  complete_for s (d1_pat nd vs) theta (List.combine vs (app_occ n)).
+Proof. exact depth_one_complete_reachable. Qed.
+Print Assumptions C04_depth_one_complete_reachable.
+
+Theorem C04_depth_one_instance_is_matched_and_fires : forall s rl nd vs n theta b1 s1, match_inv s ->
+  r_lhs rl = d1_pat nd vs -> r_cond rl = None ->
+  List.NoDup vs -> List.length vs = List.length (app_occ nd) -> pat_below (Model.ctr s) (d1_pat nd vs) ->
+  instance_of nd n = Some theta -> List.Forall (covers s) (app_occ n) -> cleanp n ->
+  forall a0, MatchMachine.eg_lookup s n = Ok (Some a0) ->
+  apply_rewrites [rl] s = Ok (b1, s1) ->
+  exists l s' sb r, ematch_all (d1_pat nd vs) s = Ok (l, s') /\ List.In sb l /\ mr_sb r = sb /\
+    describes s' (d1_pat nd vs) theta (List.combine vs (app_occ n)) a0 r /\
+    exists t a b t1 t2, qstep s t /\
+      pattern_subst (d1_pat nd vs) sb t = Ok (a, t1) /\ pattern_subst (r_rhs rl) sb t1 = Ok (b, t2) /\
+      covers s1 a /\ covers s1 b /\ eg_eq s1 a b = Ok true.
+Proof. exact depth_one_complete_and_fires_reachable. Qed.
+Print Assumptions C04_depth_one_instance_is_matched_and_fires.
